@@ -363,7 +363,7 @@ func (f *frame) copyBuiltin(dst, src sval, dtyp types.Type) Expr {
 	sp := t.newTemp("copys", th.SPtr(src.e))
 	t.checkWrite(mem, dp, th.AAdd(dp, n), "copy")
 	t.memUpdate(mem, dp, th.AAdd(dp, n), func(old, a Expr) Expr {
-		return Select(old, th.AAdd(sp, th.ASub(a, dp)))
+		return Select(old, th.AIdx(sp, th.ASub(a, dp)))
 	})
 	return n
 }
@@ -908,6 +908,7 @@ func (f *frame) siteAsserts(x *ssa.Call) {
 	if lvs, ok := t.fc.GhostAt[site]; ok {
 		// initial ghost state of an object this function allocated (definitional)
 		env := f.bodyEnv(false)
+		env.oldMap = map[string]*Cell{}
 		for _, g := range lvs {
 			ge, err := ParseSpec(g)
 			if err != nil {
@@ -916,6 +917,11 @@ func (f *frame) siteAsserts(x *ssa.Call) {
 			for _, lv := range f.specLvals(ge, env) {
 				if lv.kind != lvField || !strings.HasPrefix(lv.heap.Name, "H_$") {
 					fail("ghost-at: %s is not ghost state", g)
+				}
+				if _, ok := env.oldMap[lv.heap.Name]; !ok {
+					o := t.freshCell("presite$"+sanitize(lv.heap.Name), lv.heap.S)
+					t.cur.Assign(o, lv.heap)
+					env.oldMap[lv.heap.Name] = o
 				}
 				_, es := lv.heap.S.ArrayParts()
 				t.cur.Assign(lv.heap, Store(lv.heap, lv.idx, t.havocTemp("ghost", es, lv.typ)))
